@@ -34,6 +34,9 @@ type stats struct {
 	Recvs        int    `json:"recvs"`
 	Uncontrolled int    `json:"uncontrolled_selects"`
 	PkgVarYields int    `json:"pkg_var_yields"`
+	ClockVars    int    `json:"clock_vars_reinit"`
+	reinitFunc   string
+	pkgName      string
 }
 
 type rewriter struct {
@@ -94,17 +97,47 @@ func main() {
 				}
 			}
 		}
+		// R8: package-level variables whose initialiser reads the clock (directly or
+		// through another such variable) get re-initialised inside the simulation, so
+		// that no instant of the real clock leaks into simulated time
+		clockRound := clockVars(dir, ents)
+		var reinit []string
+		pkgName := ""
+		maxRound := -1
 		for _, e := range ents {
 			n := e.Name()
 			if e.IsDir() || !strings.HasSuffix(n, ".go") || strings.HasSuffix(n, "_test.go") || strings.HasPrefix(n, "zverif_") {
 				continue
 			}
-			st, err := processFile(filepath.Join(dir, n), filepath.ToSlash(filepath.Join(pkg, n)), *module, pkgVars)
+			st, err := processFile(filepath.Join(dir, n), filepath.ToSlash(filepath.Join(pkg, n)), *module, pkgVars, clockRound)
 			if err != nil {
 				fmt.Fprintln(os.Stderr, "instrument:", err)
 				os.Exit(2)
 			}
+			if st.reinitFunc != "" {
+				reinit = append(reinit, st.reinitFunc)
+			}
+			pkgName = st.pkgName
 			all = append(all, st)
+		}
+		for _, r := range clockRound {
+			if r > maxRound {
+				maxRound = r
+			}
+		}
+		var b strings.Builder
+		fmt.Fprintf(&b, "package %s\n\n// ZverifReinitClockVars re-evaluates the package-level variables whose initialiser reads the clock.\nfunc ZverifReinitClockVars() {\n", pkgName)
+		if len(reinit) > 0 {
+			fmt.Fprintf(&b, "\tfor round := 0; round <= %d; round++ {\n", maxRound)
+			for _, fn := range reinit {
+				fmt.Fprintf(&b, "\t\t%s(round)\n", fn)
+			}
+			fmt.Fprintf(&b, "\t}\n")
+		}
+		fmt.Fprintf(&b, "}\n")
+		if err := os.WriteFile(filepath.Join(dir, "zverif_reinit.go"), []byte(b.String()), 0o644); err != nil {
+			fmt.Fprintln(os.Stderr, "instrument:", err)
+			os.Exit(2)
 		}
 	}
 	sort.Slice(all, func(i, j int) bool { return all[i].File < all[j].File })
@@ -114,7 +147,136 @@ func main() {
 	}
 }
 
-func processFile(path, rel, module string, pkgVars map[string]bool) (stats, error) {
+// clockVars returns, for the package-level variables of a package whose
+// initialiser calls time.Now/Since/Until or mentions such a variable, the
+// round in which they have to be re-evaluated (dependency order).
+func clockVars(dir string, ents []os.DirEntry) map[string]int {
+	type spec struct {
+		names []string
+		vals  []ast.Expr
+		tname string
+	}
+	var specs []spec
+	for _, e := range ents {
+		n := e.Name()
+		if e.IsDir() || !strings.HasSuffix(n, ".go") || strings.HasSuffix(n, "_test.go") || strings.HasPrefix(n, "zverif_") {
+			continue
+		}
+		f, err := parser.ParseFile(token.NewFileSet(), filepath.Join(dir, n), nil, 0)
+		if err != nil {
+			continue
+		}
+		tname := timeImportName(f)
+		for _, d := range f.Decls {
+			if gd, ok := d.(*ast.GenDecl); ok && gd.Tok == token.VAR {
+				for _, sp := range gd.Specs {
+					vs := sp.(*ast.ValueSpec)
+					if len(vs.Values) == 0 {
+						continue
+					}
+					var names []string
+					for _, id := range vs.Names {
+						names = append(names, id.Name)
+					}
+					specs = append(specs, spec{names, vs.Values, tname})
+				}
+			}
+		}
+	}
+	round := map[string]int{}
+	for r := 0; r < 8; r++ {
+		changed := false
+		for _, sp := range specs {
+			if _, done := round[sp.names[0]]; done {
+				continue
+			}
+			hit := false
+			for _, v := range sp.vals {
+				if (r == 0 && readsClock(v, sp.tname)) || (r > 0 && mentions(v, round, r-1)) {
+					hit = true
+				}
+			}
+			if hit {
+				for _, n := range sp.names {
+					if n != "_" {
+						round[n] = r
+					}
+				}
+				if sp.names[0] == "_" {
+					round["_"] = r
+				}
+				changed = true
+			}
+		}
+		if !changed {
+			break
+		}
+	}
+	delete(round, "_")
+	return round
+}
+
+func timeImportName(f *ast.File) string {
+	for _, im := range f.Imports {
+		if p, _ := strconv.Unquote(im.Path.Value); p == "time" {
+			if im.Name != nil {
+				return im.Name.Name
+			}
+			return "time"
+		}
+	}
+	return ""
+}
+
+func readsClock(e ast.Expr, tname string) bool {
+	if tname == "" {
+		return false
+	}
+	found := false
+	ast.Inspect(e, func(n ast.Node) bool {
+		if _, ok := n.(*ast.FuncLit); ok {
+			return false // evaluated when called, not at initialisation
+		}
+		if c, ok := n.(*ast.CallExpr); ok {
+			if se, ok := c.Fun.(*ast.SelectorExpr); ok {
+				if id, ok := se.X.(*ast.Ident); ok && id.Name == tname && (se.Sel.Name == "Now" || se.Sel.Name == "Since" || se.Sel.Name == "Until") {
+					found = true
+				}
+			}
+		}
+		return true
+	})
+	return found
+}
+
+// mentions: does the expression (outside function literals) name a variable of exactly that round?
+func mentions(e ast.Expr, round map[string]int, r int) bool {
+	found := false
+	ast.Inspect(e, func(n ast.Node) bool {
+		switch x := n.(type) {
+		case *ast.FuncLit:
+			return false
+		case *ast.SelectorExpr:
+			ast.Inspect(x.X, func(m ast.Node) bool {
+				if id, ok := m.(*ast.Ident); ok {
+					if rr, ok := round[id.Name]; ok && rr == r {
+						found = true
+					}
+				}
+				return true
+			})
+			return false
+		case *ast.Ident:
+			if rr, ok := round[x.Name]; ok && rr == r {
+				found = true
+			}
+		}
+		return true
+	})
+	return found
+}
+
+func processFile(path, rel, module string, pkgVars map[string]bool, clockRound map[string]int) (stats, error) {
 	fset := token.NewFileSet()
 	f, err := parser.ParseFile(fset, path, nil, parser.ParseComments)
 	if err != nil {
@@ -122,10 +284,45 @@ func processFile(path, rel, module string, pkgVars map[string]bool) (stats, erro
 	}
 	rw := &rewriter{fset: fset, rel: rel, pkgVars: pkgVars, pkgSpecs: map[*ast.ValueSpec]bool{}}
 	rw.st.File = rel
+	rw.st.pkgName = f.Name.Name
+	reinitByRound := map[int][]string{}
 	for _, d := range f.Decls {
 		if gd, ok := d.(*ast.GenDecl); ok && gd.Tok == token.VAR {
 			for _, sp := range gd.Specs {
-				rw.pkgSpecs[sp.(*ast.ValueSpec)] = true
+				vs := sp.(*ast.ValueSpec)
+				rw.pkgSpecs[vs] = true
+				if len(vs.Values) == 0 {
+					continue
+				}
+				r, ok := -1, false
+				for _, id := range vs.Names {
+					if rr, is := clockRound[id.Name]; is {
+						r, ok = rr, true
+					}
+				}
+				if !ok {
+					continue
+				}
+				pr := func(n ast.Node) string {
+					var b bytes.Buffer
+					format.Node(&b, fset, n)
+					return b.String()
+				}
+				if len(vs.Values) == len(vs.Names) {
+					for i, id := range vs.Names {
+						if id.Name != "_" {
+							reinitByRound[r] = append(reinitByRound[r], id.Name+" = "+pr(vs.Values[i]))
+							rw.st.ClockVars++
+						}
+					}
+				} else {
+					var names []string
+					for _, id := range vs.Names {
+						names = append(names, id.Name)
+					}
+					reinitByRound[r] = append(reinitByRound[r], strings.Join(names, ", ")+" = "+pr(vs.Values[0]))
+					rw.st.ClockVars++
+				}
 			}
 		}
 	}
@@ -266,6 +463,29 @@ func processFile(path, rel, module string, pkgVars map[string]bool) (stats, erro
 	var buf bytes.Buffer
 	if err := format.Node(&buf, fset, f); err != nil {
 		return rw.st, fmt.Errorf("%s: %w", path, err)
+	}
+	if len(reinitByRound) > 0 {
+		base := strings.TrimSuffix(filepath.Base(path), ".go")
+		fn := "zverifReinit_" + strings.Map(func(r rune) rune {
+			if r >= 'a' && r <= 'z' || r >= 'A' && r <= 'Z' || r >= '0' && r <= '9' {
+				return r
+			}
+			return '_'
+		}, base)
+		rw.st.reinitFunc = fn
+		fmt.Fprintf(&buf, "\nfunc %s(round int) {\n\tswitch round {\n", fn)
+		var rounds []int
+		for r := range reinitByRound {
+			rounds = append(rounds, r)
+		}
+		sort.Ints(rounds)
+		for _, r := range rounds {
+			fmt.Fprintf(&buf, "\tcase %d:\n", r)
+			for _, a := range reinitByRound[r] {
+				fmt.Fprintf(&buf, "\t\t%s\n", a)
+			}
+		}
+		fmt.Fprintf(&buf, "\t}\n}\n")
 	}
 	// re-parse as a sanity check
 	if _, err := parser.ParseFile(token.NewFileSet(), path, buf.Bytes(), 0); err != nil {
